@@ -179,7 +179,7 @@ fn derive_seed(seed: u64, prop: &str, name: &str, shard: usize) -> u64 {
 /// is shrunk by proptest and re-executed once (stats frozen) to obtain the structured failure.
 pub fn campaign<C, S, MK, F>(cfg: &RunCfg, prop: &str, name: &str, total: u64, mk: MK, check: F) -> CampaignOut
 where
-    C: std::fmt::Debug + Clone + Serialize + Send,
+    C: std::fmt::Debug + Clone + Serialize + serde::de::DeserializeOwned + Send,
     S: Strategy<Value = C>,
     MK: Fn() -> S + Sync,
     F: Fn(&C, &mut Stats) -> Result<(), Failure> + Sync,
@@ -238,6 +238,28 @@ where
                         };
                         f.case = serde_json::to_value(&shrunk).unwrap_or(Value::Null);
                         f.campaign = name.to_string();
+                        // second stage: greedy structural minimisation of the JSON form, same check must keep failing
+                        if f.check != "unstable" && !f.case.is_null() {
+                            let want = f.check.clone();
+                            let run_one = |v: &Value| -> Option<Failure> {
+                                let c: C = serde_json::from_value(v.clone()).ok()?;
+                                let mut st = Stats::default();
+                                st.frozen = true;
+                                match catch_unwind(AssertUnwindSafe(|| check(&c, &mut st))) {
+                                    Ok(Err(f2)) => Some(f2),
+                                    Ok(Ok(())) => None,
+                                    Err(p) => Some(Failure::new("panic", format!("panic: {}", panic_text(&p)))),
+                                }
+                            };
+                            let small = crate::minimize::minimize(f.case.clone(), 4000, |v| run_one(v).map(|f2| f2.check == want).unwrap_or(false));
+                            if small != f.case {
+                                if let Some(mut f2) = run_one(&small) {
+                                    f2.case = small;
+                                    f2.campaign = name.to_string();
+                                    f = f2;
+                                }
+                            }
+                        }
                         Some(f)
                     }
                     Err(TestError::Abort(reason)) => {
